@@ -1,3 +1,252 @@
+/-
+C10 - property theorems: rearranging dimensions preserves every element's (name-addressed) label
+coordinates; every axis travels with its data.
+-/
 import DimModel.Lib.Reshape
 namespace DimModel
+open Lib
+
+/-- name-addressed access: the element at the position `c d` along every dimension `d`,
+independent of the order in which dimensions are stored -/
+def DimArray.at {α} (a : DimArray α) (c : String → Nat) : α := a.vals.get (a.dims.map c)
+
+/-- `p` is a permutation of `0 .. n-1` -/
+def IsPerm (p : List Nat) (n : Nat) : Prop := p.length = n ∧ p.Nodup ∧ ∀ k ∈ p, k < n
+
+/-! ### list helpers (core only) -/
+
+private theorem map_eraseIdx' {α β} (f : α → β) :
+    ∀ (l : List α) (i : Nat), (l.eraseIdx i).map f = (l.map f).eraseIdx i
+  | [], _ => rfl
+  | _ :: _, 0 => rfl
+  | x :: l, i + 1 => by
+    simp only [List.eraseIdx_cons_succ, List.map_cons, map_eraseIdx' f l i]
+
+private theorem map_insertIdx' {α β} (f : α → β) (a : α) :
+    ∀ (l : List α) (i : Nat), (l.insertIdx i a).map f = (l.map f).insertIdx i (f a)
+  | l, 0 => by simp only [List.insertIdx_zero, List.map_cons]
+  | [], i + 1 => by simp only [List.insertIdx_succ_nil, List.map_nil]
+  | x :: l, i + 1 => by
+    simp only [List.insertIdx_succ_cons, List.map_cons, map_insertIdx' f a l i]
+
+private theorem insertIdx_eraseIdx_same {α} (a : α) :
+    ∀ (l : List α) (i : Nat), i < l.length → (l.eraseIdx i).insertIdx i a = l.set i a
+  | [], _, h => absurd h (Nat.not_lt_zero _)
+  | x :: l, 0, _ => by simp only [List.eraseIdx_cons_zero, List.insertIdx_zero, List.set_cons_zero]
+  | x :: l, i + 1, h => by
+    have h' : i < l.length := by simpa using h
+    simp only [List.eraseIdx_cons_succ, List.insertIdx_succ_cons, List.set_cons_succ,
+      insertIdx_eraseIdx_same a l i h']
+
+/-- reading a mapped list at the first position of a member gives the image of that member -/
+private theorem getD_map_idxOf {β} (p : List Nat) (f : Nat → β) (d : Nat) (hmem : d ∈ p) (z : β) :
+    (p.map f).getD (p.idxOf d) z = f d := by
+  have hidx : p.idxOf d < p.length := List.idxOf_lt_length_of_mem hmem
+  rw [List.getD_eq_getElem?_getD, List.getElem?_map, List.getElem?_eq_getElem hidx,
+    List.getElem_idxOf hidx]
+  rfl
+
+private theorem getD_of_lt {β} (l : List β) (i : Nat) (h : i < l.length) (z : β) :
+    l.getD i z = l[i] := by
+  rw [List.getD_eq_getElem?_getD, List.getElem?_eq_getElem h]; rfl
+
+/-- in a duplicate-free list of names, overwriting position `pos` of the coordinates with 0 is
+the same as sending the name at `pos` to 0 -/
+private theorem set_map_eq {l : List String} (hn : l.Nodup) (pos : Nat) (hpos : pos < l.length)
+    (c : String → Nat) :
+    (l.map c).set pos 0 = l.map (fun d => if d = l[pos] then 0 else c d) := by
+  apply List.ext_getElem
+  · simp only [List.length_set, List.length_map]
+  · intro i h1 h2
+    have hi : i < l.length := by simpa using h2
+    rw [List.getElem_set, List.getElem_map, List.getElem_map]
+    by_cases hip : pos = i
+    · subst hip; simp only [if_true]
+    · have hne : ¬ (l[i] = l[pos]) := fun heq => hip ((List.getElem_inj hn).mp heq).symm
+      simp only [hip, hne, if_false]
+
+theorem isPerm_mem {p : List Nat} {n : Nat} (h : IsPerm p n) (d : Nat) (hd : d < n) : d ∈ p := by
+  obtain ⟨hl, hn, hb⟩ := h
+  -- a duplicate-free list of n numbers below n contains every number below n
+  apply Classical.byContradiction
+  intro hnot
+  have hsub : p ⊆ (List.range n).erase d := by
+    intro k hk
+    have hkd : k ≠ d := fun e => hnot (e ▸ hk)
+    exact (List.mem_erase_of_ne hkd).mpr (List.mem_range.mpr (hb k hk))
+  have hle := List.Nodup.length_le_of_subset hn hsub
+  rw [List.length_erase, if_pos (List.mem_range.mpr hd), List.length_range, hl] at hle
+  omega
+
+/-- the dims of a transposed array are the requested permutation of the dims -/
+theorem transposeBy_dims {α} (a : DimArray α) (p : List Nat) :
+    (transposeBy a p).dims = p.map (fun k => (a.axes.getD k default).name) := by
+  simp only [transposeBy, DimArray.dims, List.map_map, Function.comp_def]
+
+/-- every axis travels with its data: position `k` of the result holds the axis that was at `p[k]` -/
+theorem transposeBy_axes {α} (a : DimArray α) (p : List Nat) (k : Nat) (hk : k < p.length) :
+    (transposeBy a p).axes[k]'(by simpa [transposeBy] using hk) = a.axes.getD p[k] default := by
+  simp only [transposeBy, List.getElem_map]
+
+/-- **transpose preserves name-addressed coordinates**, for every permutation of any rank -/
+theorem transposeBy_at {α} (a : DimArray α) (p : List Nat) (hp : IsPerm p a.axes.length)
+    (hs : a.vals.shape.length = a.axes.length) (c : String → Nat) :
+    (transposeBy a p).at c = a.at c := by
+  unfold DimArray.at
+  rw [transposeBy_dims]
+  simp only [transposeBy, NDArr.transpose, hs]
+  congr 1
+  apply List.ext_getElem
+  · simp only [DimArray.dims, List.length_map, List.length_range]
+  · intro d h1 h2
+    have hd : d < a.axes.length := by simpa using h1
+    have hmem : d ∈ p := isPerm_mem hp d hd
+    simp only [List.getElem_map, List.getElem_range, DimArray.dims, List.map_map]
+    rw [getD_map_idxOf p _ d hmem 0]
+    simp only [Function.comp_apply, getD_of_lt a.axes d hd]
+
+/-- metadata and value kind are kept -/
+theorem transposeBy_attrs {α} (a : DimArray α) (p : List Nat) :
+    (transposeBy a p).attrs = a.attrs ∧ (transposeBy a p).vkind = a.vkind := ⟨rfl, rfl⟩
+
+/-- the inverse permutation -/
+def invPerm (p : List Nat) : List Nat := (List.range p.length).map (fun d => p.idxOf d)
+
+/-- `a.transpose(p).transpose(inverse p)` has the axes of `a`, in the original order -/
+theorem transpose_inv_axes {α} (a : DimArray α) (p : List Nat) (hp : IsPerm p a.axes.length) :
+    (transposeBy (transposeBy a p) (invPerm p)).axes = a.axes := by
+  simp only [transposeBy, invPerm, List.map_map]
+  apply List.ext_getElem
+  · simp only [List.length_map, List.length_range, hp.1]
+  · intro d h1 h2
+    have hd : d < a.axes.length := h2
+    have hmem : d ∈ p := isPerm_mem hp d hd
+    simp only [List.getElem_map, List.getElem_range, Function.comp_apply]
+    rw [getD_map_idxOf p _ d hmem default]
+    exact getD_of_lt a.axes d hd default
+
+/-- ... and `a.transpose(p).transpose(inverse p)` addresses the same elements as `a` -/
+theorem transpose_inv_at {α} (a : DimArray α) (p : List Nat) (hp : IsPerm p a.axes.length)
+    (hs : a.vals.shape.length = a.axes.length) (c : String → Nat) :
+    (transposeBy (transposeBy a p) (invPerm p)).at c = a.at c := by
+  have hq : IsPerm (invPerm p) (transposeBy a p).axes.length := by
+    have hl : (transposeBy a p).axes.length = p.length := by simp only [transposeBy, List.length_map]
+    refine ⟨by simp only [invPerm, hl, List.length_map, List.length_range], ?_, ?_⟩
+    · -- idxOf is injective on members
+      unfold invPerm
+      rw [List.Nodup, List.pairwise_map]
+      refine List.Pairwise.imp_of_mem ?_ (List.nodup_range (n := p.length))
+      intro x y hx hy hxy heq
+      have hx' : x ∈ p := isPerm_mem hp x (by simpa [hp.1] using List.mem_range.mp hx)
+      have hy' : y ∈ p := isPerm_mem hp y (by simpa [hp.1] using List.mem_range.mp hy)
+      have e1 := List.getElem_idxOf (List.idxOf_lt_length_of_mem hx')
+      have e2 := List.getElem_idxOf (List.idxOf_lt_length_of_mem hy')
+      apply hxy
+      rw [← e1, ← e2]
+      simp only [heq]
+    · intro k hk
+      unfold invPerm at hk
+      obtain ⟨d, hd, rfl⟩ := List.mem_map.mp hk
+      have hd' : d ∈ p := isPerm_mem hp d (by simpa [hp.1] using List.mem_range.mp hd)
+      rw [hl]; exact List.idxOf_lt_length_of_mem hd'
+  have hs' : (transposeBy a p).vals.shape.length = (transposeBy a p).axes.length := by
+    simp only [transposeBy, NDArr.transpose, List.length_map]
+  rw [transposeBy_at (transposeBy a p) (invPerm p) hq hs' c, transposeBy_at a p hp hs c]
+
+/-- **newaxis**: the element at any coordinate of the result is the element of the input at the
+same coordinate (the new dimension is ignored: replication) -/
+theorem newaxis_at {α} (a : DimArray α) (name : String) (pos : Nat) (hpos : pos ≤ a.axes.length)
+    (c : String → Nat) :
+    let ax : Axis := { name := name, labels := [Label.none], kind := .O }
+    let o : DimArray α := { axes := a.axes.insertIdx pos ax, vals := a.vals.insertDim pos, vkind := a.vkind, attrs := a.attrs }
+    o.at c = a.at c := by
+  intro ax o
+  have _ := hpos
+  unfold DimArray.at
+  simp only [o, NDArr.insertDim, DimArray.dims]
+  congr 1
+  rw [map_insertIdx', map_insertIdx']
+  exact List.eraseIdx_insertIdx_self _
+
+/-- **squeeze** of the singleton dimension at `pos`: the result at coordinate `c` is the input at
+`c` with position 0 along the removed dimension -/
+theorem squeezeDim_at {α} (a : DimArray α) (pos : Nat) (hpos : pos < a.axes.length)
+    (hn : a.dims.Nodup) (c : String → Nat) :
+    let o : DimArray α := { axes := a.axes.eraseIdx pos, vals := a.vals.dropDim pos, vkind := a.vkind, attrs := a.attrs }
+    o.at c = a.at (fun d => if d = (a.axes.getD pos default).name then 0 else c d) := by
+  intro o
+  have hposd : pos < a.dims.length := by simpa [DimArray.dims] using hpos
+  have hname : (a.axes.getD pos default).name = a.dims[pos] := by
+    rw [getD_of_lt a.axes pos hpos]; simp only [DimArray.dims, List.getElem_map]
+  unfold DimArray.at
+  simp only [o, NDArr.dropDim, DimArray.dims]
+  congr 1
+  simp only [DimArray.dims] at hn hposd hname
+  rw [map_eraseIdx', map_eraseIdx', insertIdx_eraseIdx_same 0 _ pos (by simpa using hposd), hname]
+  exact set_map_eq hn pos hposd c
+
+/-- **repeat** of the singleton dimension at `pos`: every position along the repeated dimension
+holds the input's single slice -/
+theorem repeatDim_at {α} (a : DimArray α) (pos n : Nat) (newax : Axis) (hpos : pos < a.axes.length)
+    (hn : a.dims.Nodup) (hname : newax.name = (a.axes.getD pos default).name) (c : String → Nat) :
+    let o : DimArray α := { axes := a.axes.set pos newax, vals := a.vals.repeatDim pos n, vkind := a.vkind, attrs := a.attrs }
+    o.at c = a.at (fun d => if d = (a.axes.getD pos default).name then 0 else c d) := by
+  intro o
+  have _ := hname
+  have hposd : pos < a.dims.length := by simpa [DimArray.dims] using hpos
+  have hnm : (a.axes.getD pos default).name = a.dims[pos] := by
+    rw [getD_of_lt a.axes pos hpos]; simp only [DimArray.dims, List.getElem_map]
+  unfold DimArray.at
+  simp only [o, NDArr.repeatDim, DimArray.dims]
+  congr 1
+  rw [List.map_set, List.map_set, List.set_set]
+  have := set_map_eq hn pos hposd c
+  simp only [DimArray.dims] at this hnm
+  rw [hnm]
+  exact this
+
+/-- `np.rollaxis`'s permutation is a permutation (so `rollaxis` falls under `transposeBy_at`) -/
+theorem rollPerm_isPerm (n : Nat) (axis start : Int) (p : List Nat) (h : rollPerm n axis start = .ok p) :
+    IsPerm p n := by
+  unfold rollPerm at h
+  simp only at h
+  generalize (if axis < 0 then axis + (n : Int) else axis) = ax at h
+  generalize (if start < 0 then start + (n : Int) else start) = st at h
+  by_cases c1 : (decide (ax < 0) || decide (ax ≥ (n : Int))) = true
+  · rw [if_pos c1] at h; cases h
+  rw [if_neg c1] at h
+  by_cases c2 : (decide (st < 0) || decide (st > (n : Int))) = true
+  · rw [if_pos c2] at h; cases h
+  rw [if_neg c2] at h
+  injection h with h
+  subst h
+  simp only [Bool.or_eq_true, decide_eq_true_eq, not_or, Int.not_lt, ge_iff_le, gt_iff_lt,
+    Int.not_le] at c1 c2
+  have hA : ax.toNat < n := by omega
+  generalize hAe : ax.toNat = A at *
+  have hS : (if st > ax then st - 1 else st).toNat ≤ n - 1 := by
+    split <;> omega
+  generalize (if st > ax then st - 1 else st).toNat = S at *
+  have hfe : (List.range n).filter (· != A) = (List.range n).erase A :=
+    (List.Nodup.erase_eq_filter List.nodup_range A).symm
+  have hfl : ((List.range n).filter (· != A)).length = n - 1 := by
+    rw [hfe, List.length_erase, if_pos (List.mem_range.mpr hA), List.length_range]
+  have hSl : S ≤ ((List.range n).filter (· != A)).length := by rw [hfl]; exact hS
+  have hperm := List.perm_insertIdx A ((List.range n).filter (· != A)) hSl
+  refine ⟨?_, ?_, ?_⟩
+  · rw [List.length_insertIdx_of_le_length hSl, hfl]; omega
+  · rw [hperm.nodup_iff, List.nodup_cons]
+    refine ⟨?_, List.Nodup.sublist List.filter_sublist List.nodup_range⟩
+    intro hm
+    have := (List.mem_filter.mp hm).2
+    simp at this
+  · intro k hk
+    rcases List.mem_cons.mp (hperm.mem_iff.mp hk) with rfl | hk'
+    · exact hA
+    · exact List.mem_range.mp (List.mem_filter.mp hk').1
+
+/-- non-vacuity: a concrete permutation satisfies `IsPerm` -/
+example : IsPerm [2, 0, 1] 3 := by
+  refine ⟨rfl, by decide, by decide⟩
+
 end DimModel
